@@ -12,8 +12,15 @@ open SteelVerif.C19
 #print axioms no_growth_while_free
 #print axioms weak_box_cleared
 #print axioms heap_bounded
+#print axioms model_constants_match_source
+#print axioms heap_bounded_source
 #print axioms run_bounded
 #print axioms markedCount_le_reachable
 #print axioms root_token_release
 #print axioms root_token_live
 #print axioms release_under_current_generation_leaks
+#print axioms cycleHeap_reach
+#print axioms markedCount_le_length
+#print axioms liveOK_alloc_gcFull
+#print axioms markedCount_le_of_reachable
+#print axioms cycleHeapWF_wf
